@@ -8,7 +8,7 @@ import ast
 from .. import AnalysisError, flow
 from ..fold import RegexVal, is_unknown
 from ..srcmodel import walk_local, norm, dotted, guards, body_list_of, enclosing_stmt
-from . import common
+from . import common, forward
 
 META = {
     'explanation': (
@@ -21,7 +21,7 @@ META = {
         "check_error_tracts asking about all three components, every warning "
         "regex wired into gen_flags_chunk, exact membership of the trigger "
         "phrases, and the context slice covering the match."),
-    'families': ['PAIR', 'TBL', 'ORDER', 'RX-LANG'],
+    'families': ['PAIR', 'TBL', 'ORDER', 'RX-LANG', 'FORWARD', 'DEADPARAM', 'SIB-DEFAULTS'],
 }
 
 FLAG_ATTRS = ('flags', 'w_flags', 'e_flags')
@@ -172,6 +172,8 @@ def check(ctx):
     ctx.attempt(_flawed)
     ctx.attempt(_warnings)
     ctx.attempt(_tract_sharing)
+    ctx.attempt(forward.check_all, module_suffixes=('tract.tract', 'tract.tract_parse', 'plssdesc.plss_parse', 'plssdesc.plssdesc', 'trs.trs'))
+    ctx.attempt(common.embedded_case_consistency, modules=('rgxlib.warnings',))
 
 
 def _staging_tables(ctx):
